@@ -1274,6 +1274,13 @@ class ConnectionBase(object):
                 self.stats.dropped += 1
                 return False
 
+        # a datagram older than the receive window can no longer be tested
+        # for duplication, drop it instead of processing it a second time
+        current = self.bitfield_pkt.current_seqnum
+        if current != 0 and current.diff(hdr.seq) > self.bitfield_pkt.nbits:
+            self.stats.dropped += 1
+            return False
+
         try:
             # TODO: log warning for packet flooding
             # if inserting dropped unacked bits then those packets will time out
